@@ -17,10 +17,10 @@ ASSUMPTIONS = ["rand::rngs::OsRng is the only non-deterministic input of Commune
 TRUSTED = []
 
 
-def threshold_unmodified(ctx, rule, roots):
+def threshold_unmodified(ctx, rule, roots, cfg="A"):
     """the threshold travels unmodified from the access structure into Sharks"""
     for root7 in roots:
-        e7, r7, _, _ = ctx.root(root7)
+        e7, r7, _, _ = ctx.root(root7, cfg)
         cs = [e for e in Q.calls(e7, "star_sharks::Sharks::") if e["callee"].endswith(("::dealer_rng", "::recover"))]
         ok7 = bool(cs)
         found = []
@@ -33,7 +33,7 @@ def threshold_unmodified(ctx, rule, roots):
                 ok7 = False
         ctx.add(rule, root7 + "#threshold-passed-unmodified", ok7,
                 "Sharks must be parameterised with exactly the access structure's threshold (no clamping, narrowing or arithmetic): %s" % found,
-                ctx.fn(root7).loc, sample=found)
+                ctx.fn(root7, cfg).loc, sample=found)
 
 
 def run(ctx):
